@@ -179,6 +179,30 @@ func quoteStr(s string, q byte) string {
 	return sb.String()
 }
 
+// colonSafe makes sure that a following ':' cannot be lexed into a preceding identifier
+// (identifiers may contain ':' and digits: "vi:2" is one name).
+func colonSafe(s string) string {
+	if s == "" {
+		return s
+	}
+	rs := []rune(s)
+	c := rs[len(rs)-1]
+	if c == '_' || c == '$' || c == ':' || c > 0x7f || (c >= '0' && c <= '9') || (c >= 'a' && c <= 'z') || (c >= 'A' && c <= 'Z') {
+		// a trailing digit is only dangerous when it belongs to an identifier, but a blank is
+		// legal after identifiers only; numbers take no trailing blank. Decide by scanning back.
+		i := len(rs) - 1
+		for i >= 0 && (rs[i] == '_' || rs[i] == '$' || rs[i] == ':' || rs[i] > 0x7f || (rs[i] >= '0' && rs[i] <= '9') || (rs[i] >= 'a' && rs[i] <= 'z') || (rs[i] >= 'A' && rs[i] <= 'Z')) {
+			i--
+		}
+		first := rs[i+1]
+		if first >= '0' && first <= '9' {
+			return s // a number
+		}
+		return s + " "
+	}
+	return s
+}
+
 func (p *printer) postfixBase(n *Node) string {
 	// operand of an index / attr / call: must be a primary that the grammar lets carry a postfix chain
 	switch n.K {
@@ -240,7 +264,11 @@ func (p *printer) expr(n *Node) string {
 			if i > 0 {
 				out += "," + p.sp()
 			}
-			out += p.expr(n.Kids[i]) + p.sp() + ":" + p.sp() + p.expr(n.Kids[i+1]) + p.sp()
+			key := p.expr(n.Kids[i])
+			if n.Kids[i].K == KBool || n.Kids[i].K == KNull {
+				key = "(" + key + ")" + p.sp() // true/false/null in key position would be identifiers
+			}
+			out += colonSafe(key+p.sp()) + ":" + p.sp() + p.expr(n.Kids[i+1]) + p.sp()
 		}
 		return out + "}" + p.sp()
 	case KIndex:
@@ -311,7 +339,7 @@ func (p *printer) expr(n *Node) string {
 	case KOr:
 		return p.at(n.Kids[0], LOr) + p.sp() + "||" + p.sp() + p.at(n.Kids[1], LAnd)
 	case KTern:
-		return p.at(n.Kids[0], LOr) + p.sp() + "?" + p.sp() + p.at(n.Kids[1], LOr) + p.sp() + ":" + p.sp() + p.at(n.Kids[2], LOr) + p.sp()
+		return p.at(n.Kids[0], LOr) + p.sp() + "?" + p.sp() + colonSafe(p.at(n.Kids[1], LOr)+p.sp()) + ":" + p.sp() + p.at(n.Kids[2], LOr) + p.sp()
 	case KMulti:
 		out := ""
 		for i := 0; i < len(n.Kids); i += 2 {
@@ -368,7 +396,12 @@ func (p *printer) stmts(list []*Node) string {
 			if isBlock && p.r.Intn(2) == 0 && s.K != KReturn {
 				out += p.sp()
 			} else {
-				out += []string{";", "; ", ";\n", " ;\n"}[p.r.Intn(4)]
+				seps := []string{";", "; ", ";\n", " ;\n"}
+				if s.K == KReturn {
+					// after a return statement the grammar takes ';' without leading blanks
+					seps = seps[:3]
+				}
+				out += seps[p.r.Intn(len(seps))]
 			}
 		}
 	}
@@ -522,9 +555,39 @@ func valEqualD(a, b Val, depth int) bool {
 	return false
 }
 
-func toStr(v Val) string { return toStrRaw(v, false) }
+func toStr(v Val) string  { return toStrRaw(v, false) }
 func toRepr(v Val) string { return toStrRaw(v, true) }
-func toStrRaw(v Val, repr bool) string { return toStrD(v, repr, 0) }
+func toStrRaw(v Val, repr bool) string {
+	// the string form of a value that contains the same container twice is not
+	// specified (the VM abbreviates the repetition): decline
+	seen := map[any]bool{}
+	var walk func(v Val, depth int)
+	walk = func(v Val, depth int) {
+		if depth > 40 {
+			decline("deep or cyclic string form")
+		}
+		switch x := v.(type) {
+		case *Arr:
+			if seen[x] {
+				decline("shared container in a string form")
+			}
+			seen[x] = true
+			for _, e := range x.L {
+				walk(e, depth+1)
+			}
+		case *Dict:
+			if seen[x] {
+				decline("shared container in a string form")
+			}
+			seen[x] = true
+			for _, e := range x.M {
+				walk(e, depth+1)
+			}
+		}
+	}
+	walk(v, 0)
+	return toStrD(v, repr, 0)
+}
 
 func toStrD(v Val, repr bool, depth int) string {
 	if depth > 40 {
@@ -688,10 +751,13 @@ func (in *Interp) binop(op string, a, b Val) Val {
 			if times < 0 {
 				decline("negative repeat")
 			}
-			if int64(len(arr.L))*times > 512 || times > 512 {
+			if times > 0 && int64(len(arr.L)) > 512/times {
 				fail("too long")
 			}
 			n := &Arr{}
+			if len(arr.L) == 0 {
+				return n
+			}
 			for i := int64(0); i < times; i++ {
 				n.L = append(n.L, arr.L...)
 			}
